@@ -365,6 +365,98 @@ fn exhaustive(sink: &mut Sink) {
     }
 }
 
+/// The same verdicts as the user gets them: the generated configuration is written as TOML, the
+/// file is created with the drawn numbers of code / comment / blank lines, and `check` (with
+/// `--warn-threshold` when the case has a CLI override) must report the status, count and limit
+/// the checker object gives in-process (which the model and the oracle above decide).
+fn e2e_case(sink: &mut Sink, r: &mut Rng, bin: &str, scratch: &str) {
+    if !sink.want() {
+        sink.skip();
+        return;
+    }
+    let mut g = gen_case(r, false, false);
+    g.path = *r.pick(&["src/a/x.rs", "src/b.rs", "b.rs", "lib/a.rs", "src/gen/m.py", "src/a/gen/q.rs", "src/a/a.rs"]);
+    g.stats.ignored = 0;
+    if r.chance(1, 2) {
+        g.cli_wt = Some(*r.pick(T_VALID));
+    }
+    if g.gmax > 1 && r.chance(1, 2) {
+        g.gwa = Some(r.below(g.gmax));
+    }
+    g.stats.code = g.stats.code.min(130);
+    g.stats.total = g.stats.code + g.stats.comment + g.stats.blank;
+    if g.exts.is_empty() {
+        g.exts = vec!["rs", "py"];
+    }
+    // keep inside the load-time gate (C17): absolute warn points below the limits they apply to
+    if g.gwa.is_some_and(|w| w >= g.gmax || g.rules.iter().any(|x| x.warn_at.is_none() && x.warn_threshold.is_none() && w >= x.max_lines)) {
+        g.gwa = None;
+    }
+    for x in &mut g.rules {
+        if x.warn_at.is_some_and(|w| w >= x.max_lines) {
+            x.warn_at = None;
+        }
+    }
+    let dir = std::path::PathBuf::from(scratch).join(format!("e{}", sink.n));
+    let _ = std::fs::remove_dir_all(&dir);
+    let file = dir.join(g.path);
+    std::fs::create_dir_all(file.parent().unwrap()).unwrap();
+    let cm = if g.path.ends_with(".py") { "# note\n" } else { "// note\n" };
+    std::fs::write(&file, format!("{}{}{}", "x = 1;\n".repeat(g.stats.code), cm.repeat(g.stats.comment), "\n".repeat(g.stats.blank))).unwrap();
+    let q = |v: &[&str]| v.iter().map(|e| format!("\"{e}\"")).collect::<Vec<_>>().join(", ");
+    let mut t = format!("version = \"2\"\n[scanner]\ngitignore = false\n[content]\nmax_lines = {}\nwarn_threshold = {:?}\nskip_comments = {}\nskip_blank = {}\nextensions = [{}]\nexclude = [{}]\n", g.gmax, g.gwt, g.gsc, g.gsb, q(&g.exts), q(&g.exclude));
+    if let Some(w) = g.gwa {
+        t += &format!("warn_at = {w}\n");
+    }
+    for x in &g.rules {
+        t += &format!("[[content.rules]]\npattern = \"{}\"\nmax_lines = {}\n", x.pattern, x.max_lines);
+        if let Some(v) = x.warn_threshold { t += &format!("warn_threshold = {v:?}\n"); }
+        if let Some(v) = x.warn_at { t += &format!("warn_at = {v}\n"); }
+        if let Some(v) = x.skip_comments { t += &format!("skip_comments = {v}\n"); }
+        if let Some(v) = x.skip_blank { t += &format!("skip_blank = {v}\n"); }
+    }
+    std::fs::write(dir.join(".sloc-guard.toml"), &t).unwrap();
+    let mut argv: Vec<String> = ["check", "--no-sloc-cache", "--format", "json"].iter().map(|x| (*x).to_string()).collect();
+    if let Some(w) = g.cli_wt {
+        argv.push(format!("--warn-threshold={w:?}"));
+    }
+    argv.push(".".into());
+    let o = std::process::Command::new(bin).args(&argv).current_dir(&dir).env("NO_COLOR", "1").output().expect("run sloc-guard");
+    let rc = o.status.code().unwrap_or(-1);
+    let mut pred: Option<String> = None;
+    let mut tag = "e2e/".to_string();
+    if rc == 2 {
+        tag += "rejected-at-load";
+    } else {
+        let obs = observe(&g);
+        let v: serde_json::Value = serde_json::from_slice(&o.stdout).unwrap_or(serde_json::Value::Null);
+        let res = v.get("results").and_then(|x| x.as_array()).and_then(|a| a.iter().find(|x| x.get("path").and_then(|p| p.as_str()).is_some_and(|p| p.trim_start_matches("./") == g.path)).cloned());
+        match (obs.process, res) {
+            (false, Some(_)) => pred = Some(format!("{} is reported although should_process is false", g.path)),
+            (false, None) => tag += "not-processed",
+            (true, None) => pred = Some(format!("{} is not reported although it is in scope", g.path)),
+            (true, Some(x)) => {
+                let status = x.get("status").and_then(|s| s.as_str()).unwrap_or("?").to_string();
+                let sloc = x.get("sloc").and_then(|s| s.as_u64()).unwrap_or(u64::MAX) as usize;
+                let limit = x.get("limit").and_then(|s| s.as_u64()).unwrap_or(u64::MAX) as usize;
+                tag += &format!("{status}{}{}", if g.cli_wt.is_some() { "/cli-threshold" } else { "" }, if g.gwa.is_some() { "/global-warn-at" } else { "" });
+                if (status.as_str(), sloc, limit) != (obs.status.as_str(), obs.eff, obs.limit) {
+                    pred = Some(format!("`{}` reports {} (count {sloc}, limit {limit}) for {}; the checker gives {} (count {}, limit {}, warn point {:?})", argv.join(" "), status, g.path, obs.status, obs.eff, obs.limit, obs.warn));
+                }
+                let want_rc = i32::from(obs.status == "failed");
+                if pred.is_none() && rc != want_rc {
+                    pred = Some(format!("exit status {rc}, expected {want_rc}"));
+                }
+            }
+        }
+    }
+    if let Some(p) = &mut pred {
+        *p += &format!(" :: {}", t.replace('\n', "\\n"));
+    }
+    let _ = std::fs::remove_dir_all(&dir);
+    sink.push(Case { request: "noop".into(), implementation: "-".into(), pred: pred.map_or_else(|| "ok".to_string(), |p| format!("FAIL {p}")), tag });
+}
+
 pub fn run(tier: Tier, seed: u64, out: &str) {
     let mut sink = Sink::create(out);
     let mut r = Rng::new(seed);
@@ -379,6 +471,13 @@ pub fn run(tier: Tier, seed: u64, out: &str) {
         emit(&mut sink, &g, i % 4 == 0);
     }
     let _ = guarded(String::new);
+    if let Ok(bin) = std::env::var("SGVERIF_BIN") {
+        let scratch = std::env::var("SGVERIF_SCRATCH").unwrap_or_else(|_| "/verif/.build/scratch/c05".to_string());
+        for _ in 0..tier.scale(250, 4000) {
+            let mut rr = r.fork();
+            e2e_case(&mut sink, &mut rr, &bin, &scratch);
+        }
+    }
     crate::globfact::stream(&mut sink, &mut r, tier.scale(400, 6000));
     crate::globfact::flush(&mut sink);
     sink.finish(out);
